@@ -793,6 +793,8 @@ def run(ctx):
     def do_grid(nrows, ncols, fd, outlets, inlet_sets, nvals, full=True, dtypes=True):
         n = nrows * ncols
         dtype = rng.choice(DTYPES) if dtypes else np.int64
+        if not np.array_equal(np.array(fd, dtype=np.int64).astype(dtype).astype(np.int64), np.array(fd, dtype=np.int64)):
+            dtype = np.int64      # the storage type must hold every code exactly
         cat, g = make_catchment(nrows, ncols, fd, dtype)
         G = grid_info(nrows, ncols, fd)
         if dtype is not np.int64:
@@ -898,6 +900,10 @@ def run(ctx):
              "cls": (rec["kind"], bool(rec.get("transposed")), min(nrows, 3), min(ncols, 3), n.bit_length()),
              "desc": f"{rec['kind']} grid {nrows}x{ncols}"}
         dtype = rng.choice(DTYPES)
+        # a narrower storage type only when it holds every code exactly (grids with invalid codes that alias
+        # valid ones - 257, 2^32 + 16 ... - would otherwise be a different grid once stored)
+        if not np.array_equal(np.asarray(fd2).astype(dtype).astype(np.int64), np.asarray(fd2, dtype=np.int64)):
+            dtype = np.int64
         if dtype is not np.int64:
             B["base"]["flow_grid_dtype"] = np.dtype(dtype).name
         g = hygrid.Grid("fd", ncols, nrows, dtype=dtype)
